@@ -2426,7 +2426,7 @@ FROM (
         child_sqls = []
         for child in node.children:
             child_sql = self.visit(child)
-            if not child_sql.strip().upper().startswith("SELECT"):
+            if not child_sql.strip().upper().startswith(("SELECT", "WITH")):
                 child_sql = (
                     f"SELECT * FROM "
                     f"{quote_name(child.value if hasattr(child, 'value') else child_sql)}"
@@ -2488,11 +2488,16 @@ FROM (
             cte = CTEBuilder()
             cte.cte("_sd_a", a_sql, materialized=True)
             cte.cte("_sd_b", b_sql, materialized=True)
+            # UNION ALL is positional: project both sides in the first operand's column order
+            # (the operands may declare the same components in a different order).
+            col_names = list(first_ds.components.keys())
+            a_cols = ", ".join(f"a.{quote_name(c)}" for c in col_names)
+            c_cols = ", ".join(f"c.{quote_name(c)}" for c in col_names)
             return cte.select(
-                f"(SELECT a.* FROM _sd_a AS a "
+                f"(SELECT {a_cols} FROM _sd_a AS a "
                 f"ANTI JOIN _sd_b AS b ON {on_clause}) "
                 f"UNION ALL "
-                f"(SELECT c.* FROM _sd_b AS c "
+                f"(SELECT {c_cols} FROM _sd_b AS c "
                 f"ANTI JOIN _sd_a AS d ON {on_clause_rev})"
             )
 
